@@ -798,8 +798,6 @@ Proof.
       * rewrite IH. reflexivity.
 Qed.
 
-Definition ins_all (kvs : list (N * option N)) (m : list (N * option N)) : list (N * option N) :=
-  fold_left (fun m kv => map_insert (fst kv) (snd kv) m) kvs m.
 Lemma get_ins_all_other k : forall kvs m, ~ In k (map fst kvs) -> map_get (ins_all kvs m) k = map_get m k.
 Proof.
   unfold ins_all. induction kvs as [|[k0 v0] r IH]; intros m H; [reflexivity|]. cbn [fold_left fst snd map] in *.
@@ -887,4 +885,470 @@ Proof.
   - rewrite Ecmp. destruct (a =? e) eqn:E; cbn [negb].
     + rewrite (NX t None). reflexivity.
     + rewrite (NX t (Some a)). reflexivity.
+Qed.
+
+(* --- the merge against a tagged, ascending list of addresses *)
+Fixpoint asc (l : list N) : Prop := match l with [] => True | x :: r => (forall y, In y r -> x < y) /\ asc r end.
+Lemma asc_NoDup l : asc l -> NoDup l.
+Proof. induction l as [|x r IH]; cbn [asc]; intro H; [constructor|]. destruct H as [A B]. constructor; [intro I; specialize (A x I); lia | apply IH; exact B]. Qed.
+Lemma asc_app a b : asc a -> asc b -> (forall x y, In x a -> In y b -> x < y) -> asc (a ++ b).
+Proof.
+  induction a as [|x r IH]; cbn [asc app]; intros A B C; [exact B|]. destruct A as [A1 A2]. split.
+  - intros y I. apply in_app_iff in I as [I|I]; [apply A1; exact I | apply C; [left; reflexivity | exact I]].
+  - apply IH; [exact A2 | exact B | intros; apply C; [right|]; assumption].
+Qed.
+
+Lemma merge_tagged : forall (EL : list (N * bool)),
+  asc (map fst EL) ->
+  (forall b r, EL = (0, b) :: r -> b = true \/ filter snd EL <> []) ->
+  merge_miss (map fst EL) (map fst (filter snd EL)) = map fst (filter (fun p => negb (snd p)) EL).
+Proof.
+  induction EL as [|[e b] r IH]; intros A Z; [reflexivity|]. cbn [map fst asc] in A. destruct A as [A1 A2].
+  assert (Zr : forall b' r', r = (0, b') :: r' -> b' = true \/ filter snd r <> []).
+  { intros b' r' E. exfalso. subst r. specialize (A1 0). cbn [map fst] in A1. specialize (A1 (or_introl eq_refl)). lia. }
+  cbn [map filter fst snd merge_miss]. destruct b; cbn [negb map fst hd tl].
+  - rewrite N.eqb_refl. apply IH; assumption.
+  - replace (hd 0 (map fst (filter snd r)) =? e) with false; [cbn [map fst]; f_equal; apply IH; assumption|].
+    symmetry. apply N.eqb_neq. destruct (filter snd r) as [|[x bx] t] eqn:EF; cbn [map hd fst].
+    + intro E. subst e. destruct (Z false r eq_refl) as [Q|Q]; [discriminate|]. apply Q. cbn [filter snd]. exact EF.
+    + assert (I : In x (map fst r)).
+      { apply in_map_iff. exists (x, bx). split; [reflexivity|]. apply (filter_In snd (x, bx) r). rewrite EF. left. reflexivity. }
+      specialize (A1 x I). lia.
+Qed.
+
+(* --- the addresses of a list of fragments, tagged live / deleted *)
+Definition tagged_of (f : Fragment) : list (N * bool) :=
+  map (fun o => (row_address (fr_id f) o, negb (n_mem o (fr_deleted f)))) (n_range 0 (phys_n f)).
+Definition tagged (l : list Fragment) : list (N * bool) := flat_map tagged_of l.
+
+Lemma filter_map_swap {A B} (g : A -> B) (p : B -> bool) l : filter p (map g l) = map g (filter (fun x => p (g x)) l).
+Proof. induction l as [|x r IH]; [reflexivity|]. cbn [map filter]. destruct (p (g x)); cbn [map]; rewrite IH; reflexivity. Qed.
+Lemma map_flat_map {A B C} (g : B -> C) (f : A -> list B) l : map g (flat_map f l) = flat_map (fun x => map g (f x)) l.
+Proof. induction l as [|x r IH]; [reflexivity|]. cbn [flat_map]. rewrite map_app, IH. reflexivity. Qed.
+Lemma filter_flat_map {A B} (p : B -> bool) (f : A -> list B) l : filter p (flat_map f l) = flat_map (fun x => filter p (f x)) l.
+Proof. induction l as [|x r IH]; [reflexivity|]. cbn [flat_map]. rewrite filter_app, IH. reflexivity. Qed.
+
+Lemma tagged_all l : map fst (tagged l) = all_addrs l.
+Proof.
+  unfold tagged, all_addrs. rewrite map_flat_map. apply flat_map_ext. intro f. unfold tagged_of. rewrite map_map. reflexivity.
+Qed.
+Lemma tagged_live l : (forall f, In f l -> is_some (fr_phys f) = true) -> map fst (filter snd (tagged l)) = live_addrs l.
+Proof.
+  intro H. unfold tagged, live_addrs. rewrite filter_flat_map, map_flat_map. apply flat_map_ext_in_. intros f I.
+  unfold tagged_of, live_addrs_of, live_offsets, phys_n. specialize (H f I). destruct (fr_phys f) as [p|]; [|discriminate].
+  rewrite filter_map_swap, map_map. reflexivity.
+Qed.
+Lemma tagged_deleted l : map fst (filter (fun p => negb (snd p)) (tagged l)) = deleted_addrs l.
+Proof.
+  unfold tagged, deleted_addrs. rewrite filter_flat_map, map_flat_map. apply flat_map_ext. intro f.
+  unfold tagged_of, deleted_addrs_of. rewrite filter_map_swap, map_map. cbn [snd fst]. f_equal. apply filter_ext. intro o. apply negb_involutive.
+Qed.
+Lemma all_addrs_dg l : all_addrs l = all_dg (map digest_of l).
+Proof.
+  unfold all_addrs, all_dg. rewrite flat_map_concat_map, flat_map_concat_map, map_map. f_equal. apply map_ext. intro f.
+  unfold seg, digest_of. cbn [dg_id dg_phys]. rewrite N.sub_0_r. reflexivity.
+Qed.
+
+Lemma row_address_lt i1 o1 i2 o2 : i1 < i2 -> o1 < two32 -> row_address i1 o1 < row_address i2 o2.
+Proof. unfold row_address. pose proof two32_pos. nia. Qed.
+
+Lemma all_addrs_asc : forall l,
+  strict_sorted_n (frag_ids l) = true -> (forall f, In f l -> phys_n f < two32) -> asc (all_addrs l).
+Proof.
+  induction l as [|f r IH]; intros S B; [exact I|]. unfold all_addrs. cbn [flat_map]. apply asc_app.
+  - (* one fragment: offsets ascending *)
+    generalize (phys_n f) 0. intros n. induction n as [|n IHn] using N.peano_ind; intro s; [exact I|].
+    rewrite n_range_S. cbn [map asc]. split; [|apply IHn].
+    intros y Iy. apply in_map_iff in Iy as [o [Eo Io]]. apply n_range_In in Io. subst y. unfold row_address. lia.
+  - apply IH; [|intros g Ig; apply B; right; exact Ig]. unfold frag_ids in *. cbn [map strict_sorted_n] in S.
+    destruct r as [|g r']; [reflexivity|]. cbn [map] in S. apply andb_true_iff in S as [_ S]. exact S.
+  - intros x y Ix Iy. apply in_map_iff in Ix as [o [Eo Io]]. apply n_range_In in Io.
+    apply in_flat_map in Iy as [g [Ig Iy]]. apply in_map_iff in Iy as [o' [Eo' Io']]. subst x y.
+    apply row_address_lt; [|specialize (B f (or_introl eq_refl)); lia].
+    destruct (strict_sorted_NoDup _ S) as [_ LT]. unfold frag_ids in LT. cbn [map] in LT. apply (LT _ _ eq_refl). apply in_map. exact Ig.
+Qed.
+
+Lemma new_addrs_live news :
+  (forall f, In f news -> fr_id f < two32 /\ phys_n f < two32 /\ is_some (fr_phys f) = true /\ fr_deletion f = None) ->
+  new_addrs (map digest_of news) = live_addrs news.
+Proof.
+  intro H. unfold new_addrs, live_addrs. rewrite flat_map_concat_map, flat_map_concat_map, map_map. f_equal. apply map_ext_in. intros f I.
+  destruct (H f I) as [A [B [C D]]]. unfold digest_of, live_addrs_of. cbn [dg_id dg_phys]. unfold wrap32.
+  rewrite !N.mod_small by assumption. unfold phys_n in *. destruct (fr_phys f) as [p|] eqn:Ep; [|discriminate].
+  rewrite (live_offsets_no_deletion f p Ep D). reflexivity.
+Qed.
+
+Lemma combine_map_r {A B C} (g : B -> C) (a : list A) (b : list B) : combine a (map g b) = map (fun p => (fst p, g (snd p))) (combine a b).
+Proof. revert b. induction a as [|x r IH]; intros [|y s]; cbn [combine map]; [reflexivity | reflexivity | reflexivity | rewrite IH; reflexivity]. Qed.
+Lemma map_fst_combine {A B} (a : list A) (b : list B) : length a = length b -> map fst (combine a b) = a.
+Proof. revert b. induction a as [|x r IH]; intros [|y s] L; cbn [length] in L; try discriminate; cbn [combine map fst]; [reflexivity | f_equal; apply IH; lia]. Qed.
+
+(* live and deleted addresses are disjoint *)
+Lemma tag_disjoint : forall EL : list (N * bool), NoDup (map fst EL) ->
+  forall a, In a (map fst (filter snd EL)) -> ~ In a (map fst (filter (fun p => negb (snd p)) EL)).
+Proof.
+  induction EL as [|[e b] r IH]; intros N0 a I J; [destruct I|]. cbn [map fst] in N0. inversion N0; subst.
+  cbn [filter snd] in I, J. destruct b; cbn [negb map fst] in I, J.
+  - destruct I as [E|I]; [subst a; apply H1; eapply In_map_filter; exact J | exact (IH H2 a I J)].
+  - destruct J as [E|J]; [subst a; apply H1; eapply In_map_filter; exact I | exact (IH H2 a I J)].
+Qed.
+
+Lemma forallb_In_ {A} (p : A -> bool) l x : forallb p l = true -> In x l -> p x = true.
+Proof. intros H I. rewrite forallb_forall in H. apply H. exact I. Qed.
+
+Lemma live_addrs_len l : len_n (live_addrs l) = total_live l.
+Proof.
+  rewrite total_live_len. unfold live_addrs. rewrite !len_n_flat_map. f_equal. apply map_ext. intro f. unfold live_addrs_of. apply len_n_map.
+Qed.
+
+(* what the domain says about the fragments of a task *)
+Lemma remap_dom_facts olds news : remap_dom olds news = true ->
+  (forall f, In f olds -> fr_id f < two32 /\ 0 < phys_n f /\ phys_n f < two32 /\ is_some (fr_phys f) = true)
+  /\ strict_sorted_n (frag_ids olds) = true
+  /\ (forall f, In f news -> fr_id f < two32 /\ phys_n f < two32 /\ is_some (fr_phys f) = true /\ fr_deletion f = None)
+  /\ NoDup (frag_ids news)
+  /\ sum_n (map phys_n news) = total_live olds
+  /\ (total_live olds <> 0 \/ match olds with f :: _ => fr_id f <> 0 | [] => False end).
+Proof.
+  unfold remap_dom. rewrite !andb_true_iff. intros [[[[[DO SO] DN] NN] SUM] Z]. repeat split.
+  - pose proof (forallb_In_ _ _ _ DO H) as Q. cbn beta in Q. rewrite !andb_true_iff in Q. destruct Q as [[[[A B] C] _] D]. apply N.ltb_lt. exact A.
+  - pose proof (forallb_In_ _ _ _ DO H) as Q. cbn beta in Q. rewrite !andb_true_iff in Q. destruct Q as [[[[A B] C] _] D]. apply N.ltb_lt. exact B.
+  - pose proof (forallb_In_ _ _ _ DO H) as Q. cbn beta in Q. rewrite !andb_true_iff in Q. destruct Q as [[[[A B] C] _] D]. apply N.ltb_lt. exact C.
+  - pose proof (forallb_In_ _ _ _ DO H) as Q. cbn beta in Q. rewrite !andb_true_iff in Q. destruct Q as [[[[A B] C] _] D]. exact D.
+  - exact SO.
+  - pose proof (forallb_In_ _ _ _ DN H) as Q. cbn beta in Q. rewrite !andb_true_iff in Q. destruct Q as [[[A B] C] D]. apply N.ltb_lt. exact A.
+  - pose proof (forallb_In_ _ _ _ DN H) as Q. cbn beta in Q. rewrite !andb_true_iff in Q. destruct Q as [[[A B] C] D]. apply N.ltb_lt. exact B.
+  - pose proof (forallb_In_ _ _ _ DN H) as Q. cbn beta in Q. rewrite !andb_true_iff in Q. destruct Q as [[[A B] C] D]. exact C.
+  - pose proof (forallb_In_ _ _ _ DN H) as Q. cbn beta in Q. rewrite !andb_true_iff in Q. destruct Q as [[[A B] C] D].
+    apply negb_true_iff in D. destruct (fr_deletion f); [discriminate | reflexivity].
+  - apply nodup_n_NoDup. exact NN.
+  - apply N.eqb_eq. exact SUM.
+  - apply orb_true_iff in Z as [Z|Z]; apply negb_true_iff in Z.
+    + left. apply N.eqb_neq. exact Z.
+    + right. destruct olds; [discriminate | apply N.eqb_neq; exact Z].
+Qed.
+
+Lemma new_addrs_NoDup news :
+  NoDup (frag_ids news) -> (forall f, In f news -> fr_id f < two32 /\ phys_n f < two32 /\ is_some (fr_phys f) = true /\ fr_deletion f = None) ->
+  NoDup (new_addrs (map digest_of news)).
+Proof.
+  intros NN PN. unfold new_addrs. induction news as [|f r IH]; [constructor|]. cbn [map flat_map]. unfold frag_ids in NN. cbn [map] in NN. inversion NN; subst.
+  apply NoDup_app_intro.
+  - destruct (PN f (or_introl eq_refl)) as [A [B _]]. unfold digest_of. cbn [dg_id dg_phys]. unfold wrap32. rewrite !N.mod_small by assumption.
+    apply FinFun.Injective_map_NoDup; [intros x y E; unfold row_address in E; lia|]. unfold n_range. apply FinFun.Injective_map_NoDup; [intros x y E; lia | apply seq_NoDup].
+  - apply IH; [exact H2 | intros g I; apply PN; right; exact I].
+  - intros x I J. apply in_map_iff in I as [o [Eo Io]]. apply in_flat_map in J as [d [Id J]]. apply in_map_iff in J as [o' [Eo' Io']].
+    apply in_map_iff in Id as [g [Eg Ig]]. subst d x. apply n_range_In in Io, Io'.
+    destruct (PN f (or_introl eq_refl)) as [A [B _]]. destruct (PN g (or_intror Ig)) as [A' [B' _]].
+    unfold digest_of in *. cbn [dg_id dg_phys] in *. unfold wrap32 in *. rewrite !N.mod_small in * by assumption.
+    assert (E : fr_id g = fr_id f).
+    { pose proof two32_pos. unfold row_address in Eo'.
+      assert (Q : (fr_id g * two32 + o') / two32 = (fr_id f * two32 + o) / two32) by (rewrite Eo'; reflexivity).
+      rewrite !N.div_add_l in Q by lia. rewrite !N.div_small in Q by lia. lia. }
+    apply H1. rewrite <- E. apply in_map. exact Ig.
+Qed.
+
+(* the walk over the fragments of a task finds exactly the deleted addresses *)
+Lemma missing_walk_spec olds :
+  (forall f, In f olds -> fr_id f < two32 /\ 0 < phys_n f /\ phys_n f < two32 /\ is_some (fr_phys f) = true) ->
+  strict_sorted_n (frag_ids olds) = true ->
+  (total_live olds <> 0 \/ match olds with f :: _ => fr_id f <> 0 | [] => False end) ->
+  match olds with
+  | [] => True
+  | f0 :: _ => missing_walk (S (N.to_nat (sum_n (map dg_phys (map digest_of olds))))) (live_addrs olds) None
+                            (dg_id (digest_of f0) * two32) (map digest_of olds) = Some (deleted_addrs olds)
+  end.
+Proof.
+  intros PO SO Z. destruct olds as [|f0 olds'] eqn:EO; [exact I|]. rewrite <- EO in *.
+  assert (ASC : asc (all_addrs olds)) by (apply all_addrs_asc; [exact SO | intros f I; apply PO; exact I]).
+  assert (LIVE : map fst (filter snd (tagged olds)) = live_addrs olds) by (apply tagged_live; intros f I; apply PO; exact I).
+  assert (OKD : forallb dg_ok (map digest_of olds) = true).
+  { rewrite forallb_map. apply forallb_forall. intros f I. destruct (PO f I) as [A [B [C _]]]. unfold dg_ok, digest_of. cbn [dg_id dg_phys].
+    rewrite !andb_true_iff. repeat split; apply N.ltb_lt; assumption. }
+  destruct (PO f0) as [_ [P0 _]]; [rewrite EO; left; reflexivity|].
+  replace (dg_id (digest_of f0) * two32) with (row_address (dg_id (digest_of f0)) 0) by (unfold row_address; lia).
+  rewrite EO at 1 3. cbn [map]. rewrite missing_walk_merge.
+  - cbn [pend]. f_equal.
+    change (seg (digest_of f0) 0 ++ all_dg (map digest_of olds')) with (all_dg (map digest_of (f0 :: olds'))). rewrite <- EO.
+    rewrite <- all_addrs_dg, <- tagged_all, <- LIVE, <- tagged_deleted. apply merge_tagged; [rewrite tagged_all; exact ASC|].
+    intros b r E. destruct b; [left; reflexivity | right]. intro F.
+    assert (L0 : live_addrs olds = []) by (rewrite <- LIVE, F; reflexivity).
+    assert (T0 : total_live olds = 0) by (rewrite <- live_addrs_len, L0; reflexivity).
+    destruct Z as [Z|Z]; [contradiction|]. rewrite EO in E.
+    unfold tagged in E. cbn [flat_map] in E. unfold tagged_of at 1 in E.
+    replace (phys_n f0) with (N.succ (phys_n f0 - 1)) in E by lia. rewrite n_range_S in E. cbn [map app] in E. inversion E as [[E1 E2]].
+    unfold row_address in E1. pose proof two32_pos. nia.
+  - rewrite EO in OKD. exact OKD.
+  - exact P0.
+  - rewrite sum_n_cons. cbn [digest_of dg_phys]. lia.
+Qed.
+
+(* THE REMAP THEOREM: for the fragments of a task inside the declared domain, transpose_row_addrs yields a map
+   that sends the k-th live old address to the k-th new address (a bijection onto the new addresses), every
+   deleted old address to None, and has no other key *)
+Theorem remap_bijection olds news :
+  remap_dom olds news = true ->
+  exists mp, task_remap olds news = Ok mp
+    /\ length (live_addrs olds) = length (live_addrs news)
+    /\ NoDup (live_addrs olds) /\ NoDup (live_addrs news)
+    /\ (forall a b, In (a, b) (combine (live_addrs olds) (live_addrs news)) -> map_get mp a = Some (Some b))
+    /\ (forall d, In d (deleted_addrs olds) -> map_get mp d = Some None)
+    /\ (forall a, map_get mp a <> None -> In a (all_addrs olds)).
+Proof.
+  intro D. destruct (remap_dom_facts olds news D) as [PO [SO [PN [NN [SUM Z]]]]].
+  assert (ASC : asc (all_addrs olds)) by (apply all_addrs_asc; [exact SO | intros f I; apply PO; exact I]).
+  assert (NDall : NoDup (map fst (tagged olds))) by (rewrite tagged_all; apply asc_NoDup; exact ASC).
+  assert (LIVE : map fst (filter snd (tagged olds)) = live_addrs olds) by (apply tagged_live; intros f I; apply PO; exact I).
+  assert (NDL : NoDup (live_addrs olds)) by (rewrite <- LIVE; apply NoDup_map_filter; exact NDall).
+  assert (ENA : new_addrs (map digest_of news) = live_addrs news) by (apply new_addrs_live; exact PN).
+  assert (NDN : NoDup (live_addrs news)) by (rewrite <- ENA; apply new_addrs_NoDup; assumption).
+  assert (LEN : length (live_addrs olds) = length (live_addrs news)).
+  { apply len_n_length. rewrite !live_addrs_len, <- SUM. unfold total_live. f_equal. apply map_ext_in. intros f I.
+    destruct (PN f I) as [_ [_ [C Dl]]]. unfold live_count, phys_n. destruct (fr_phys f) as [p|] eqn:Ep; [|discriminate].
+    rewrite (live_offsets_no_deletion f p Ep Dl). unfold len_n. rewrite n_range_len. lia. }
+  pose proof (missing_walk_spec olds PO SO Z) as WALK.
+  unfold task_remap, transpose. destruct olds as [|f0 olds'].
+  { exfalso. destruct Z as [Z|Z]; [apply Z; reflexivity | exact Z]. }
+  cbn [map] in WALK |- *. rewrite WALK, ENA.
+  eexists. split; [reflexivity|]. repeat split; try assumption.
+  - (* live *)
+    intros a b I.
+    assert (Ia : In a (live_addrs (f0 :: olds'))) by (eapply in_combine_l; exact I).
+    rewrite get_ins_all_other.
+    + apply get_ins_all_in; [rewrite map_fst_combine by (rewrite map_length; exact LEN); exact NDL|].
+      rewrite combine_map_r. apply in_map_iff. exists (a, b). split; [reflexivity | exact I].
+    + rewrite map_map. cbn [fst]. rewrite map_id. rewrite <- LIVE in Ia. rewrite <- tagged_deleted. apply tag_disjoint; assumption.
+  - (* deleted *)
+    intros d I. apply get_ins_all_in.
+    + rewrite map_map. cbn [fst]. rewrite map_id. rewrite <- tagged_deleted. apply NoDup_map_filter. exact NDall.
+    + apply in_map_iff. exists d. split; [reflexivity | exact I].
+  - (* no other key *)
+    intros a Hn. destruct (in_dec N.eq_dec a (deleted_addrs (f0 :: olds'))) as [I|NI].
+    + rewrite <- tagged_deleted in I. rewrite <- tagged_all. eapply In_map_filter. exact I.
+    + rewrite get_ins_all_other in Hn by (rewrite map_map; cbn [fst]; rewrite map_id; exact NI).
+      destruct (in_dec N.eq_dec a (live_addrs (f0 :: olds'))) as [I|NI2].
+      * rewrite <- LIVE in I. rewrite <- tagged_all. eapply In_map_filter. exact I.
+      * rewrite get_ins_all_other in Hn; [exfalso; apply Hn; reflexivity|].
+        rewrite map_fst_combine by (rewrite map_length; exact LEN). exact NI2.
+Qed.
+
+(* ================================================================ H. index fragment bitmaps *)
+Lemma set_insert_In x y : forall l, In x (set_insert y l) <-> x = y \/ In x l.
+Proof.
+  induction l as [|z r IH]; cbn [set_insert]; [cbn [In]; split; [intros [E|[]]; left; congruence | intros [E|[]]; left; congruence]|].
+  destruct (y <? z); [cbn [In]; split; [intros [E|I]; [left; congruence | right; exact I] | intros [E|I]; [left; congruence | right; exact I]]|].
+  destruct (y =? z) eqn:E.
+  - apply N.eqb_eq in E. subst z. cbn [In]. split; [intro I; right; exact I | intros [E|I]; [left; congruence | exact I]].
+  - cbn [In]. rewrite IH. tauto.
+Qed.
+Lemma set_remove_In x y l : In x (set_remove y l) <-> x <> y /\ In x l.
+Proof.
+  unfold set_remove. rewrite filter_In. split.
+  - intros [I E]. apply negb_true_iff in E. apply N.eqb_neq in E. split; assumption.
+  - intros [E I]. split; [exact I | apply negb_true_iff; apply N.eqb_neq; exact E].
+Qed.
+Lemma fold_remove_In x : forall ids l, In x (fold_left (fun acc id => set_remove (wrap32 id) acc) ids l) <-> In x l /\ ~ In x (map wrap32 ids).
+Proof.
+  induction ids as [|i r IH]; intro l; cbn [fold_left map In]; [tauto|]. rewrite IH, set_remove_In. split.
+  - intros [[A B] C]. split; [exact B | intros [E|I]; [apply A; symmetry; exact E | exact (C I)]].
+  - intros [A B]. split; [split; [intro E; apply B; left; symmetry; exact E | exact A] | intro I; apply B; right; exact I].
+Qed.
+Lemma fold_insert_In x : forall (fs : list Fragment) l,
+  In x (fold_left (fun acc f => set_insert (wrap32 (fr_id f)) acc) fs l) <-> In x l \/ In x (map (fun f => wrap32 (fr_id f)) fs).
+Proof.
+  induction fs as [|f r IH]; intro l; cbn [fold_left map In]; [tauto|]. rewrite IH, set_insert_In. split.
+  - intros [[E|A]|B]; [right; left; symmetry; exact E | left; exact A | right; right; exact B].
+  - intros [A|[E|B]]; [left; right; exact A | left; left; symmetry; exact E | right; exact B].
+Qed.
+
+Definition touched (b : list N) (g : RewriteGroup) : bool := existsb (fun id => n_mem (wrap32 id) b) (rg_old g).
+Definition covered (b : list N) (g : RewriteGroup) : bool := forallb (fun id => n_mem (wrap32 id) b) (rg_old g).
+Definition old_ids32 (g : RewriteGroup) : list N := map wrap32 (rg_old g).
+Definition new_ids32 (g : RewriteGroup) : list N := map (fun f => wrap32 (fr_id f)) (rg_new g).
+Definition cov_olds (b : list N) (groups : list RewriteGroup) : list N := flat_map (fun g => if touched b g then old_ids32 g else []) groups.
+Definition cov_news (b : list N) (groups : list RewriteGroup) : list N := flat_map (fun g => if touched b g then new_ids32 g else []) groups.
+
+(* recalculate_fragment_bitmap: no group is split by the index; the fragments of every group the index covers
+   are replaced by the group's new fragments; nothing else changes *)
+Theorem bitmap_spec old : forall groups nb b',
+  recalculate_fragment_bitmap old nb groups = Ok b' ->
+  (forall g, In g groups -> touched old g = true -> covered old g = true)
+  /\ ((forall x, In x (cov_news old groups) -> ~ In x (flat_map old_ids32 groups)) ->
+      forall x, In x b' <-> (In x nb /\ ~ In x (cov_olds old groups)) \/ In x (cov_news old groups)).
+Proof.
+  induction groups as [|g rest IH]; intros nb b' H; cbn [recalculate_fragment_bitmap] in H.
+  - inversion H; subst. split; [intros g []|]. intros _ x. cbn [cov_olds cov_news flat_map In]. tauto.
+  - fold (touched old g) in H. fold (covered old g) in H. destruct (touched old g) eqn:T.
+    + destruct (covered old g) eqn:C; [|discriminate]. destruct (IH _ _ H) as [S1 S2]. split.
+      * intros g' [E|I] Tg; [subst g'; exact C | apply S1; assumption].
+      * intros F x. cbn [cov_olds cov_news flat_map]. rewrite T. rewrite S2.
+        -- rewrite fold_insert_In, fold_remove_In. fold (old_ids32 g). fold (new_ids32 g). rewrite !in_app_iff.
+           fold (cov_olds old rest). fold (cov_news old rest).
+           assert (Q : In x (new_ids32 g) -> ~ In x (cov_olds old rest)).
+           { intros I J. apply (F x).
+             - cbn [cov_news flat_map]. rewrite T. apply in_or_app. left. exact I.
+             - cbn [flat_map]. apply in_or_app. right. unfold cov_olds in J. apply in_flat_map in J as [g' [Ig' J]].
+               apply in_flat_map. exists g'. split; [exact Ig'|]. destruct (touched old g'); [exact J | destruct J]. }
+           tauto.
+        -- intros y I J. apply (F y); [cbn [cov_news flat_map]; rewrite T; apply in_or_app; right; exact I | cbn [flat_map]; apply in_or_app; right; exact J].
+    + destruct (IH _ _ H) as [S1 S2]. split.
+      * intros g' [E|I] Tg; [subst g'; rewrite T in Tg; discriminate | apply S1; assumption].
+      * intros F x. cbn [cov_olds cov_news flat_map]. rewrite T. cbn [app]. apply S2.
+        intros y I J. apply (F y); [cbn [cov_news flat_map]; rewrite T; exact I | cbn [flat_map]; apply in_or_app; right; exact J].
+Qed.
+
+(* "an index covers a new fragment iff it covered all the old ones of its group" *)
+Corollary bitmap_new_fragment old groups b' g f :
+  recalculate_fragment_bitmap old old groups = Ok b' ->
+  NoDup (flat_map new_ids32 groups) ->
+  (forall x, In x (flat_map new_ids32 groups) -> ~ In x old /\ ~ In x (flat_map old_ids32 groups)) ->
+  In g groups -> rg_old g <> [] -> In f (rg_new g) ->
+  (In (wrap32 (fr_id f)) b' <-> covered old g = true).
+Proof.
+  intros H ND FR Ig NE If. destruct (bitmap_spec old groups old b' H) as [S1 S2].
+  assert (INn : In (wrap32 (fr_id f)) (new_ids32 g)) by (unfold new_ids32; apply in_map_iff; exists f; split; [reflexivity | exact If]).
+  assert (INa : In (wrap32 (fr_id f)) (flat_map new_ids32 groups)) by (apply in_flat_map; exists g; split; assumption).
+  assert (F : forall x, In x (cov_news old groups) -> ~ In x (flat_map old_ids32 groups)).
+  { intros x I. apply FR. unfold cov_news in I. apply in_flat_map in I as [g' [Ig' I]]. apply in_flat_map. exists g'. split; [exact Ig'|].
+    destruct (touched old g'); [exact I | destruct I]. }
+  rewrite (S2 F). split.
+  - intros [[A _]|B]; [exfalso; exact (proj1 (FR _ INa) A)|].
+    unfold cov_news in B. apply in_flat_map in B as [g' [Ig' B]]. destruct (touched old g') eqn:T; [|destruct B].
+    (* the new ids of distinct groups are distinct: g' = g *)
+    assert (g' = g).
+    { clear - ND Ig Ig' B INn. induction groups as [|h r IHg]; [destruct Ig|]. cbn [flat_map] in ND.
+      destruct Ig as [E1|I1], Ig' as [E2|I2]; subst.
+      - reflexivity.
+      - exfalso. eapply NoDup_app_disj; [exact ND | exact INn | apply in_flat_map; exists g'; split; assumption].
+      - exfalso. eapply NoDup_app_disj; [exact ND | exact B | apply in_flat_map; exists g; split; assumption].
+      - apply IHg; [eapply NoDup_app_r; exact ND | assumption | assumption]. }
+    subst g'. apply S1; assumption.
+  - intro C. right. unfold cov_news. apply in_flat_map. exists g. split; [exact Ig|].
+    assert (T : touched old g = true).
+    { unfold touched, covered in *. destruct (rg_old g) as [|i r]; [contradiction|]. cbn [forallb existsb] in *. apply andb_true_iff in C as [C _]. rewrite C. reflexivity. }
+    rewrite T. exact INn.
+Qed.
+
+(* ================================================================ J. committing onto a later version *)
+Lemma lookup_old_unchanged l1 l2 ids :
+  (forall i, In i ids -> find_frag l1 i = find_frag l2 i) -> lookup_old l1 ids = lookup_old l2 ids.
+Proof.
+  intro H. unfold lookup_old. apply flat_map_ext_in_. intros i I. specialize (H i I). unfold find_frag in H. rewrite H. reflexivity.
+Qed.
+Lemma find_frag_In l i f : find_frag l i = Some f -> In i (frag_ids l).
+Proof. unfold find_frag. intro H. apply find_id_some in H as [A B]. subst i. apply in_map. exact A. Qed.
+
+Lemma group_ok_unchanged s l1 l2 g :
+  (forall i, In i (rg_old g) -> is_some (find_frag l1 i) = true /\ find_frag l1 i = find_frag l2 i) ->
+  group_ok s l1 g = true -> group_ok s l2 g = true.
+Proof.
+  intros H G. unfold group_ok in *. rewrite <- (lookup_old_unchanged l1 l2 (rg_old g)) by (intros i I; apply H; exact I).
+  rewrite !andb_true_iff in *. destruct G as [[[[A B] C] D] E]. repeat split; try assumption.
+  unfold n_incl. apply forallb_forall. intros i I. apply n_mem_In. destruct (H i I) as [S Eq]. rewrite Eq in S.
+  destruct (find_frag l2 i) as [f|] eqn:F; [|discriminate]. eapply find_frag_In. exact F.
+Qed.
+
+Theorem tasks_commit_later m_read m_commit groups :
+  tasks_ok m_read m_commit groups = true ->
+  Known_C13_commit_ignores_task_read_version m_read m_commit groups = false ->
+  groups_ok m_commit groups = true.
+Proof.
+  unfold tasks_ok, Known_C13_commit_ignores_task_read_version, groups_ok, olds_unchanged. rewrite !andb_true_iff, negb_false_iff.
+  intros [[[[S G] N1] N2] F] U. apply Bool.eqb_prop in S. rewrite <- S. repeat split; try assumption.
+  apply forallb_forall. intros g I. rewrite forallb_forall in G, U. eapply group_ok_unchanged; [|apply G; exact I].
+  intros i Ii. specialize (U i). assert (Ia : In i (flat_map rg_old groups)) by (apply in_flat_map; exists g; split; assumption).
+  specialize (U Ia). apply andb_true_iff in U as [U1 U2]. split; [exact U1|].
+  apply (option_eqb_true fragment_eqb); [exact fragment_eqb_true | exact U2].
+Qed.
+
+Lemma cells_ok_unchanged V cell m_read m_commit groups g :
+  olds_unchanged m_read m_commit groups = true -> In g groups ->
+  cells_ok V cell (m_fragments m_read) g -> cells_ok V cell (m_fragments m_commit) g.
+Proof.
+  unfold olds_unchanged, cells_ok. intros U I C. rewrite forallb_forall in U.
+  rewrite <- (lookup_old_unchanged (m_fragments m_read) (m_fragments m_commit) (rg_old g)); [exact C|].
+  intros i Ii. assert (Ia : In i (flat_map rg_old groups)) by (apply in_flat_map; exists g; split; assumption).
+  specialize (U i Ia). apply andb_true_iff in U as [_ U2]. apply (option_eqb_true fragment_eqb); [exact fragment_eqb_true | exact U2].
+Qed.
+
+(* ================================================================ K. remapped index answers; subsets of tasks *)
+Section Answers.
+Variable V : Type.
+Variable cell : list DataFile -> N -> V.
+
+Lemma table_arows_combine l : table_arows V cell l = combine (live_addrs l) (table_vrows V cell l).
+Proof.
+  unfold table_arows, live_addrs, Model_Compact.table_vrows. induction l as [|f r IH]; [reflexivity|]. cbn [flat_map].
+  rewrite combine_app_eq, IH.
+  - f_equal. unfold arows_of, live_addrs_of, Model_Compact.vrows_of. rewrite combine_map_same. reflexivity.
+  - unfold live_addrs_of, Model_Compact.vrows_of. rewrite !map_length. reflexivity.
+Qed.
+
+Lemma remap_zip mp (P : vrow V -> bool) : forall (LA NA : list N) (R : list (vrow V)),
+  length LA = length NA ->
+  (forall a b, In (a, b) (combine LA NA) -> map_get mp a = Some (Some b)) ->
+  remap_set mp (map fst (filter (fun ar => P (snd ar)) (combine LA R)))
+  = map fst (filter (fun ar => P (snd ar)) (combine NA R)).
+Proof.
+  induction LA as [|a LA' IH]; intros [|b NA'] R L H; cbn [length] in L; try discriminate; [reflexivity|].
+  destruct R as [|r R']; [reflexivity|]. cbn [combine filter snd].
+  assert (IH' := IH NA' R' (eq_add_S _ _ L) (fun x y I => H x y (or_intror I))).
+  destruct (P r); cbn [map fst]; [|exact IH'].
+  unfold remap_set in *. cbn [flat_map]. unfold remap_addr at 1. rewrite (H a b (or_introl eq_refl)). cbn [app]. f_equal. exact IH'.
+Qed.
+
+(* for ANY set of rows (a predicate on what a row shows): remapping the old addresses of the rows in the set
+   gives exactly the new addresses of the rows in the set *)
+Theorem remap_answer olds news mp (P : vrow V -> bool) :
+  remap_dom olds news = true -> task_remap olds news = Ok mp ->
+  table_vrows V cell news = table_vrows V cell olds ->
+  remap_set mp (map fst (filter (fun ar => P (snd ar)) (table_arows V cell olds)))
+  = map fst (filter (fun ar => P (snd ar)) (table_arows V cell news)).
+Proof.
+  intros D T E. destruct (remap_bijection olds news D) as [mp' [T' [LEN [_ [_ [LIVE _]]]]]].
+  rewrite T in T'. inversion T'; subst mp'. rewrite !table_arows_combine, E. apply remap_zip; assumption.
+Qed.
+End Answers.
+
+(* any sub-selection, in any order, of tasks that are fine together is fine *)
+Lemma NoDup_flat_map_disj {A B} (f : A -> list B) : forall l x z y,
+  NoDup (flat_map f l) -> In x l -> In z l -> x <> z -> In y (f x) -> ~ In y (f z).
+Proof.
+  induction l as [|h r IH]; intros x z y ND Ix Iz NE Iy J; [destruct Ix|]. cbn [flat_map] in ND.
+  destruct Ix as [Ex|Ix], Iz as [Ez|Iz]; subst.
+  - contradiction.
+  - eapply NoDup_app_disj; [exact ND | exact Iy | apply in_flat_map; exists z; split; assumption].
+  - eapply NoDup_app_disj; [exact ND | exact J | apply in_flat_map; exists x; split; assumption].
+  - eapply IH; [eapply NoDup_app_r; exact ND | exact Ix | exact Iz | exact NE | exact Iy | exact J].
+Qed.
+Lemma NoDup_flat_map_elem {A B} (f : A -> list B) : forall l x, NoDup (flat_map f l) -> In x l -> NoDup (f x).
+Proof.
+  induction l as [|h r IH]; intros x ND I; [destruct I|]. cbn [flat_map] in ND. destruct I as [E|I]; [subst; eapply NoDup_app_l; exact ND | apply IH; [eapply NoDup_app_r; exact ND | exact I]].
+Qed.
+Lemma NoDup_flat_map_sub {A B} (f : A -> list B) l : NoDup (flat_map f l) ->
+  forall l', NoDup l' -> incl l' l -> NoDup (flat_map f l').
+Proof.
+  intros ND. induction l' as [|x r IH]; intros N' I; [constructor|]. inversion N'; subst. cbn [flat_map].
+  apply NoDup_app_intro.
+  - eapply NoDup_flat_map_elem; [exact ND | apply I; left; reflexivity].
+  - apply IH; [assumption | intros y Iy; apply I; right; exact Iy].
+  - intros y Iy J. apply in_flat_map in J as [z [Iz J]].
+    eapply (NoDup_flat_map_disj f l x z y ND); [apply I; left; reflexivity | apply I; right; exact Iz | intro E; subst; contradiction | exact Iy | exact J].
+Qed.
+
+Lemma reserved_of_flat groups : reserved_of groups = flat_map (fun g => filter (fun i => negb (i =? 0)) (frag_ids (rg_new g))) groups.
+Proof.
+  unfold reserved_of, frag_ids. induction groups as [|g r IH]; [reflexivity|]. cbn [flat_map]. rewrite map_app, filter_app, IH. reflexivity.
+Qed.
+
+Theorem groups_ok_subset m tasks committed :
+  groups_ok m tasks = true -> NoDup committed -> incl committed tasks -> groups_ok m committed = true.
+Proof.
+  unfold groups_ok. rewrite !andb_true_iff. intros [[[G1 G2] G3] G4] ND IN. rewrite forallb_forall in G1, G4.
+  apply nodup_n_NoDup in G2, G3. rewrite reserved_of_flat in G3. repeat split.
+  - apply forallb_forall. intros g I. apply G1. apply IN. exact I.
+  - apply nodup_n_NoDup. eapply NoDup_flat_map_sub; eassumption.
+  - apply nodup_n_NoDup. rewrite reserved_of_flat. eapply NoDup_flat_map_sub; eassumption.
+  - apply forallb_forall. intros i I. apply G4. rewrite reserved_of_flat in *. apply in_flat_map in I as [g [Ig I]].
+    apply in_flat_map. exists g. split; [apply IN; exact Ig | exact I].
 Qed.
